@@ -238,6 +238,12 @@ class Beam(_Simu):
         coord_e_pg = groupElem.Get_GaussCoordinates_e_pg(matrixType, elements)
         wJ_e_pg = groupElem.Get_weightedJacobian_e_pg(matrixType)[elements]
         N_e_pg = groupElem.Get_beam_N_e_pg(beamStructure)[elements]
+        # N_e_pg gives the displacement field in the beam axes; the load components are given
+        # in the global axes, so bring the rows back to the global frame
+        Pt_e_pg = groupElem._Compute_P_e_pg(beamStructure)[elements][:, :, :dof_n, :dof_n]
+        N_e_pg = FeArray.asfearray(
+            np.einsum("epji,epjk->epik", Pt_e_pg, N_e_pg, optimize="optimal")
+        )
         N_lag_pg = groupElem.Get_N_pg(matrixType)[:, 0, :]
 
         # Ne * dof_n * nPe DOFs per element (Hermitian N couples force and moment DOFs)
